@@ -180,9 +180,7 @@ theorem largeUnionCollapse_wf (h : Hier) (ts : List Ty) (hw : wfTL ts = true) : 
         · cases ht
     · cases ht
   · split
-    · split
-      · split <;> simp [Ty.wf]
-      · simp [Ty.wf]
+    · split <;> simp [Ty.wf]
     · simp [Ty.wf]
 
 theorem mscbUnion_wf (h : Hier) (fuel : Nat) (ts : List Ty) (hw : wfTL ts = true) : (mscbUnion h fuel ts).wf = true := by
@@ -477,19 +475,16 @@ theorem largeUnionCollapse_sound (ai : Bool) (ts : List Ty) (v : Val)
   · next u hu =>
     exact conforms_mono h.sub ai true (fun _ => rfl) u v (toTupleOf_sound h.sub ai ts u hu v hc)
   · split
-    · next c0 rest =>
-      split
-      · split
-        · next a ha =>
-          obtain ⟨t, ht, hct⟩ := hc
-          have hmem := minByRank_mem h _ a ha
-          simp only [mostSpecific, commonAncestors, List.mem_filter, Bool.and_eq_true, List.all_eq_true] at hmem
-          have hta := hmem.1.2.2 t ht
-          cases t <;> simp at hta
-          rename_i c
-          simp only [conforms] at hct ⊢
-          exact htrans _ _ _ hct hta
-        · simp [conforms]
+    · split
+      · next a ha =>
+        obtain ⟨t, ht, hct⟩ := hc
+        have hmem := minByRank_mem h _ a ha
+        simp only [mostSpecific, commonAncestors, List.mem_filter, Bool.and_eq_true, List.all_eq_true] at hmem
+        have hta := hmem.1.2.2 t ht
+        cases t <;> simp at hta
+        rename_i c
+        simp only [conforms] at hct ⊢
+        exact htrans _ _ _ hct hta
       · simp [conforms]
     · simp [conforms]
 
